@@ -460,6 +460,15 @@ class LinkSameWithUnits(LinkTwoWay):
     def backwards(self, values):
         return self._converter.to_unit(self._cid2.parent, self._cid2, values, self.units1)
 
+    def __gluestate__(self, context):
+        # The conversion functions are bound methods of this object, so
+        # (unlike for LinkTwoWay) only the component IDs are stored
+        return dict(cid1=context.id(self._cid1), cid2=context.id(self._cid2))
+
+    @classmethod
+    def __setgluestate__(cls, rec, context):
+        return cls(context.object(rec['cid1']), context.object(rec['cid2']))
+
 
 class LinkAligned(LinkCollection):
     """
@@ -475,6 +484,10 @@ class LinkAligned(LinkCollection):
             links.extend(LinkSame(data1.pixel_component_ids[j],
                                   data2.pixel_component_ids[j]))
         self._links[:] = links
+
+    @classmethod
+    def __setgluestate__(cls, rec, context):
+        return cls(data1=context.object(rec['data1']), data2=context.object(rec['data2']))
 
 
 def functional_link_collection(function, labels1=None, labels2=None,
